@@ -44,7 +44,10 @@ type rfSpec struct {
 	Nth   int    `json:"failing_pread_ordinal"`
 }
 
-var rfOps = []string{"clear-b", "delete-b", "scan-b-then-put", "clear-b-after-own-writes", "names-then-delete-bb", "clear-bb-then-clear-b"}
+var rfOps = []string{"clear-b", "delete-b", "scan-b-then-put", "clear-b-after-own-writes", "names-then-delete-bb", "clear-bb-then-clear-b", "read-tx-scans"}
+
+// rfSubPrefix: keys of b start with their 4-byte big-endian index: this prefix selects the indices 256..511
+const rfSubPrefix = "000001"
 
 type rfTree map[string]map[string]string // bucket path ("rf/b") -> key(hex) -> value(hex)
 
@@ -252,6 +255,49 @@ func rfChildMain(args []string) {
 		d, err := db.OpenDB("leveldb", dir)
 		if err != nil {
 			rep.OpenErr = err.Error()
+			finish()
+		}
+		if sp.Op == "read-tx-scans" {
+			// the scans of a read transaction: whatever reports success is complete
+			rtx, err := d.BeginReadTx()
+			if err != nil {
+				rep.OpenErr = "BeginReadTx: " + err.Error()
+				d.Close()
+				finish()
+			}
+			rep.Outcome = "read-only"
+			scan := func(name string, bk db.Bucket, prefix []byte) {
+				es, err := bk.GetByPrefix(prefix)
+				if call(name, err) {
+					c := &rep.Calls[len(rep.Calls)-1]
+					c.N, c.Sum = len(es), rfSumEntries(es)
+				}
+			}
+			names := func(name string, f func() ([]string, error)) {
+				ns, err := f()
+				if call(name, err) {
+					sort.Strings(ns)
+					c := &rep.Calls[len(rep.Calls)-1]
+					c.N, c.Sum = len(ns), strings.Join(ns, ",")
+				}
+			}
+			if top := rtx.TopLevelBucket("rf"); top != nil {
+				if bB := top.Bucket("b"); bB != nil {
+					scan("GetByPrefix b", bB, nil)
+					scan("GetByPrefix b "+rfSubPrefix, bB, hexb(rfSubPrefix))
+					names("BucketNames b", bB.BucketNames)
+				} else {
+					call("Bucket b", fmt.Errorf("not found"))
+				}
+				if c := top.Bucket("c"); c != nil {
+					scan("GetByPrefix c", c, nil)
+				}
+				names("BucketNames rf", top.BucketNames)
+			} else {
+				call("TopLevelBucket rf", fmt.Errorf("not found"))
+			}
+			rtx.Rollback()
+			d.Close()
 			finish()
 		}
 		tx, err := d.BeginTx()
@@ -508,26 +554,45 @@ func readFaultCases(run *vh.Run, root *vh.Rng, base, n int) {
 			if c.Err != "" {
 				continue
 			}
+			wantScan, wantNames := "", ""
 			switch c.Call {
 			case "GetByPrefix b":
+				wantScan = before["rf/b"]
+			case "GetByPrefix c":
+				wantScan = before["rf/c"]
+			case "GetByPrefix b " + rfSubPrefix:
+				sub := map[string]string{}
+				for k, v := range rfInitial(sp)["rf/b"] {
+					if strings.HasPrefix(k, rfSubPrefix) {
+						sub[k] = v
+					}
+				}
+				wantScan = rfSum(sub)
+			case "BucketNames b":
+				wantNames = "bb"
+			case "BucketNames rf":
+				wantNames = "a,b,c"
+			}
+			if wantScan != "" {
 				run.Count("read_fault_scans_judged", 1)
-				if c.Sum != before["rf/b"] {
-					run.Violate(ci, "scan-reported-success-with-part-of-the-bucket", map[string]string{"op": sp.Op, "bucket": "rf/b"},
-						detail(map[string]interface{}{"returned": c.Sum, "expected": before["rf/b"], "operate": op, "faults_fired": fired}))
+				if c.Sum != wantScan {
+					run.Violate(ci, "scan-reported-success-with-part-of-the-bucket", map[string]string{"op": sp.Op, "call": c.Call},
+						detail(map[string]interface{}{"returned": c.Sum, "expected": wantScan, "operate": op, "faults_fired": fired}))
 					return
 				}
-			case "BucketNames b":
+			}
+			if wantNames != "" {
 				run.Count("read_fault_scans_judged", 1)
-				if c.Sum != "bb" {
-					run.Violate(ci, "bucket-listing-reported-success-with-part-of-the-names", map[string]string{"op": sp.Op, "bucket": "rf/b"},
-						detail(map[string]interface{}{"returned": c.Sum, "expected": "bb", "operate": op, "faults_fired": fired}))
+				if c.Sum != wantNames {
+					run.Violate(ci, "bucket-listing-reported-success-with-part-of-the-names", map[string]string{"op": sp.Op, "call": c.Call},
+						detail(map[string]interface{}{"returned": c.Sum, "expected": wantNames, "operate": op, "faults_fired": fired}))
 					return
 				}
 			}
 		}
 		var want []map[string]string
 		switch {
-		case op.OpenErr != "" || op.Outcome == "rolled-back":
+		case op.OpenErr != "" || op.Outcome == "rolled-back" || op.Outcome == "read-only":
 			want = []map[string]string{before}
 		case op.Outcome == "committed":
 			want = []map[string]string{after}
